@@ -2,7 +2,7 @@
 GENERATED import list — regenerate with `python3 tools/gen_all_imports.py` (from /verif); do not edit the
 imports by hand. `python3 tools/gen_all_imports.py --check` fails if a module on disk is not imported here.
 
-Imports every module of the libraries QmcModel, QmcProofs, QmcProps (162 modules), so that
+Imports every module of the libraries QmcModel, QmcProofs, QmcProps (165 modules), so that
 `lake build QmcAll` certifies that the whole development type-checks in ONE environment: no two modules
 declare the same name (Lean: "environment already contains …"). See design_notes/Cleanup.md.
 
@@ -98,11 +98,14 @@ import QmcProofs.KernelInvarianceMask
 import QmcProofs.KernelInvarianceSlot
 import QmcProofs.KernelInvarianceSpace
 import QmcProofs.KernelInvarianceSweep
+import QmcProofs.LawCluster
+import QmcProofs.LawGood
 import QmcProofs.LawHeatBath
 import QmcProofs.LawRand
 import QmcProofs.LawRefresh
 import QmcProofs.LawSlot
 import QmcProofs.LawSweep
+import QmcProofs.LawTimestep
 import QmcProofs.LawTree
 import QmcProofs.Loop
 import QmcProofs.LoopConsistent
